@@ -951,6 +951,9 @@ func parseGuard(a Atom, be *BigEval) (Guard, bool) {
 	if !ok {
 		return Guard{}, false
 	}
+	if be != nil && bo.Parent() != nil && bo.Parent() != be.Fn {
+		be = be.forFn(bo.Parent()) // the atom lies in a helper of the function the matcher was written for
+	}
 	rel := tokRel(bo.Op)
 	if rel == "" || (a.Want != True && a.Want != False) {
 		return Guard{}, false
@@ -976,6 +979,18 @@ func parseGuard(a Atom, be *BigEval) (Guard, bool) {
 				return Guard{}, false
 			}
 			g := Guard{Kind: "big", Subject: desc(c.Call.Args[0]), SubjV: c.Call.Args[0], Rel: r, Call: c, Bound: termTop()}
+			// mirrored form `bound.Cmp(x) > 0`: the subject is the operand that is less bound-like
+			if guardRank(desc(c.Call.Args[1])) > guardRank(desc(c.Call.Args[0])) {
+				g.Subject, g.SubjV, g.Rel = desc(c.Call.Args[1]), c.Call.Args[1], relFlip[r]
+				if be != nil {
+					if ts, ok := be.At[c]; ok && len(ts) >= 2 {
+						g.Bound = ts[0]
+					}
+				} else {
+					g.Bound = termOpaque(desc(c.Call.Args[0]))
+				}
+				return g, true
+			}
 			if be != nil {
 				if ts, ok := be.At[c]; ok && len(ts) >= 2 {
 					g.Bound = ts[1]
@@ -1020,10 +1035,29 @@ func parseGuard(a Atom, be *BigEval) (Guard, bool) {
 		la, ok1 := affineOf(L)
 		ra, ok2 := affineOf(R)
 		if ok1 && ok2 {
+			if guardRank(ra.String()) > guardRank(la.String()) {
+				return Guard{Kind: "int", Subject: ra.String(), SubjV: R, Rel: relFlip[rel], BoundA: la}, true
+			}
 			return Guard{Kind: "int", Subject: la.String(), SubjV: L, Rel: rel, BoundA: ra}, true
 		}
 	}
 	return Guard{}, false
+}
+
+// guardRank orders the two operands of a comparison: the subject of a guard is the operand that is less
+// "bound-like". 0: constants and freshly computed values; 1: quantities of trusted objects (keys, structure
+// descriptions, system parameters); 2: everything else (fields of messages and proofs, arguments, loop keys).
+func guardRank(d string) int {
+	switch {
+	case d == "":
+		return 0
+	case d[0] >= '0' && d[0] <= '9', d[0] == '-', strings.HasPrefix(d, "new:"), strings.HasPrefix(d, "global:"),
+		strings.HasPrefix(d, "call:big.NewInt"), strings.HasPrefix(d, "call:math/big.NewInt"), strings.HasPrefix(d, "2^"):
+		return 0
+	case strings.HasPrefix(d, "<gabikeys."), strings.HasPrefix(d, "len(<gabikeys."), strings.Contains(d, "Structure>"), strings.HasPrefix(d, "L") && len(d) > 1 && d[1] >= 'a' && d[1] <= 'z' && !strings.ContainsAny(d, "(<["):
+		return 1
+	}
+	return 2
 }
 
 func isIntegerType(t types.Type) bool {
